@@ -463,6 +463,12 @@ impl Server {
         }
     }
 
+    /// Verification only: (requests queued, unblock tokens queued).
+    #[cfg(tiny_http_verif)]
+    pub fn verif_queue_snapshot(&self) -> (usize, usize) {
+        self.messages.verif_snapshot()
+    }
+
     /// Unblock thread stuck in recv() or incoming_requests().
     /// If there are several such threads, only one is unblocked.
     /// This method allows graceful shutdown of server.
